@@ -590,8 +590,10 @@ class AllocatedScoreSelector:
                  n_seats: int = 1,
                  ) -> List[Candidate]:
         cands = votelib.util.all_scored_candidates(votes)
-        return list(self._distributor.evaluate(
+        result = self._distributor.evaluate(
             votes,
             n_seats=n_seats,
             max_seats={cand: 1 for cand in cands}
-        ))
+        )
+        # a Tie key holds one seat per place it contests: list it that often
+        return [cand for cand, n_won in result.items() for _ in range(n_won)]
